@@ -336,8 +336,7 @@ def confirm(ck, name, what, model, d, witness, key_role):
     ybits = model.eval(z3.fpToIEEEBV(z3.FP('y', z3.Float64())), model_completion=True).as_long()
     import struct
     yv = struct.unpack('<d', struct.pack('<Q', ybits))[0]
-    docj = {'$obj': [[list(k), v] for k, v in ((k, d.cells[k][1].render(model)) for k in d.cells)
-                     if z3.is_true(model.eval(d.cells[k][0], model_completion=True))]}
+    docj = d.render(model)
     sym = {'Equal': '==', 'GreaterThan': '>', 'GreaterThanOrEqual': '>=', 'LessThan': '<', 'LessThanOrEqual': '<='}
     ops = [op] if op != 'TRI' else ['LessThan', 'Equal', 'GreaterThan', 'GreaterThanOrEqual', 'LessThanOrEqual']
     native = {}
